@@ -61,11 +61,11 @@ Inductive umove := UDeliverToServer (i : nat) | UDeliverToClient (i : nat) | UTi
 Definition timer_pending (e : ep) : bool := match next_timer e with Some _ => true | None => false end.
 
 Definition to_server (c : cfg) (s : ustate) (d : dgram) : ustate :=
-  let '(e', out) := on_datagram c (u_s s) d (unow c (u_rs s)) in
+  let '(e', out) := ep_datagram c (u_s s) d (unow c (u_rs s)) in
   {| u_c := u_c s; u_s := untime e'; u_rc := u_rc s; u_rs := urecent c (u_rs s) e';
      u_nc := u_nc s; u_ns := dins_all out (u_ns s) |}.
 Definition to_client (c : cfg) (s : ustate) (d : dgram) : ustate :=
-  let '(e', out) := on_datagram c (u_c s) d (unow c (u_rc s)) in
+  let '(e', out) := ep_datagram c (u_c s) d (unow c (u_rc s)) in
   {| u_c := untime e'; u_s := u_s s; u_rc := urecent c (u_rc s) e'; u_rs := u_rs s;
      u_nc := dins_all out (u_nc s); u_ns := u_ns s |}.
 
@@ -77,13 +77,13 @@ Definition ustep (c : cfg) (s : ustate) (m : umove) : option ustate :=
       match nth_error (u_ns s) i with Some d => Some (to_client c s d) | None => None end
   | UTimerC =>
       if timer_pending (u_c s) then
-        let '(e', out) := on_timer c (u_c s) in
+        let '(e', out) := ep_timer c (u_c s) in
         Some {| u_c := untime e'; u_s := u_s s; u_rc := u_rc s; u_rs := u_rs s;
                 u_nc := dins_all out (u_nc s); u_ns := u_ns s |}
       else None
   | UTimerS =>
       if timer_pending (u_s s) then
-        let '(e', out) := on_timer c (u_s s) in
+        let '(e', out) := ep_timer c (u_s s) in
         Some {| u_c := u_c s; u_s := untime e'; u_rc := u_rc s; u_rs := u_rs s;
                 u_nc := u_nc s; u_ns := dins_all out (u_ns s) |}
       else None
@@ -110,10 +110,10 @@ Fixpoint flush (fuel : nat) (c : cfg) (pc ps : pep) (to_s to_c : list dgram) : p
   | S fuel' =>
       match to_s, to_c with
       | d :: to_s', _ =>
-          let '(es', out) := on_datagram c (fst ps) d (unow c (snd ps)) in
+          let '(es', out) := ep_datagram c (fst ps) d (unow c (snd ps)) in
           flush fuel' c pc (untime es', urecent c (snd ps) es') to_s' (to_c ++ out)
       | [], d :: to_c' =>
-          let '(ec', out) := on_datagram c (fst pc) d (unow c (snd pc)) in
+          let '(ec', out) := ep_datagram c (fst pc) d (unow c (snd pc)) in
           flush fuel' c (untime ec', urecent c (snd pc) ec') ps out to_c'
       | [], [] => (pc, ps)
       end
@@ -122,7 +122,7 @@ Fixpoint flush (fuel : nat) (c : cfg) (pc ps : pep) (to_s to_c : list dgram) : p
 Definition flush_fuel : nat := 4000.
 
 Definition fire (c : cfg) (p : pep) : pep * list dgram :=
-  if timer_pending (fst p) then let '(e', out) := on_timer c (fst p) in ((untime e', snd p), out) else (p, []).
+  if timer_pending (fst p) then let '(e', out) := ep_timer c (fst p) in ((untime e', snd p), out) else (p, []).
 
 (* the client's timer, then the server's; after each, the network delivers everything *)
 Definition round (c : cfg) (p : pep * pep) : pep * pep :=
